@@ -913,7 +913,10 @@ class Executor:
         if node.id in self.st.env:
             return self.st.env[node.id]
         if node.id in self.mod.imports:
-            return VCallable(norm_qual(self.mod.imports[node.id]))
+            q = norm_qual(self.mod.imports[node.id])
+            if q in self.lib.constants:
+                return self.lib.constants[q]
+            return VCallable(q)
         if node.id in ("len", "max", "min", "sorted", "str", "int", "bool", "float", "list", "dict", "set", "frozenset", "type", "isinstance", "enumerate", "range", "any", "all", "sum", "cast", "round", "tuple", "hasattr", "getattr", "setattr", "zip", "abs"):
             return VCallable("builtins." + node.id)
         if node.id in EXC_PARENTS:
@@ -948,14 +951,20 @@ class Executor:
     def expr_Attribute(self, node):
         # module attribute such as z3.And / pathlib.Path
         if isinstance(node.value, ast.Name) and node.value.id not in self.st.env and node.value.id in self.mod.imports:
-            return VCallable(norm_qual(self.mod.imports[node.value.id] + "." + node.attr))
+            q = norm_qual(self.mod.imports[node.value.id] + "." + node.attr)
+            if q in self.lib.constants:
+                return self.lib.constants[q]
+            return VCallable(q)
         o = self.eval(node.value)
-        return self.getattr(o, node.attr, node)
+        r = self.getattr(o, node.attr, node)
+        if isinstance(r, VCallable) and r.qual in self.lib.constants:
+            return self.lib.constants[r.qual]
+        return r
 
     def getattr(self, o, attr, node):
         st = self.st
         if isinstance(o, VCallable):
-            return VCallable(o.qual + "." + attr)
+            return VCallable(o.qual + "." + attr, bound=o.bound)
         if isinstance(o, VCnd):
             if attr == "antecedence":
                 return VForm(L.ant(o.t))
@@ -1290,6 +1299,8 @@ class Executor:
         # 3. repository functions through their contract
         ct = C.get(q)
         if ct:
+            if list(ct.params.keys())[:1] == ["cls"]:
+                args = [VCallable(q.rsplit(".", 1)[0])] + args  # classmethod called on the class
             return self.call_contract(ct, args, kwargs, node)
         raise Unsupported(f"call of {q}: no model and no contract")
 
